@@ -31,8 +31,8 @@ ASSUMPTIONS = ['identity tolerance 1e-8 relative; estimate tolerance 1e-6 relati
                '(statsmodels pinv OLS on deliberately ill-conditioned data)',
                'residual variance > 0 (|corr| <= 0.9999)']
 EXHAUSTIVE = {'quick': False, 'thorough': False}
-MINIMA = {'quick': {'buffer_edits': 300, 'object_reuse': 600, 'identity_checked': 1500, 'tbr_fits': 1500, 'distinct_nontrivial': 1000, 'metamorphic_checked': 1500},
-          'thorough': {'buffer_edits': 5000, 'object_reuse': 9000, 'identity_checked': 25000, 'tbr_fits': 25000, 'distinct_nontrivial': 15000, 'metamorphic_checked': 25000}}
+MINIMA = {'quick': {'exact_zero_correlation': 30, 'buffer_edits': 300, 'object_reuse': 600, 'identity_checked': 1500, 'tbr_fits': 1500, 'distinct_nontrivial': 1000, 'metamorphic_checked': 1500},
+          'thorough': {'exact_zero_correlation': 500, 'buffer_edits': 5000, 'object_reuse': 9000, 'identity_checked': 25000, 'tbr_fits': 25000, 'distinct_nontrivial': 15000, 'metamorphic_checked': 25000}}
 N = {'quick': 2000, 'thorough': 30000}
 
 
@@ -103,9 +103,19 @@ def run_case(spec):
   y0 = sign * rho_target * x0 + math.sqrt(max(0.0, 1 - rho_target ** 2)) * e
   x_pre = level + sd * x0
   y_pre = 2 * level + 3.0 + 1.7 * sd * y0
+  exact_zero = spec['idx'] % 29 == 11
+  if exact_zero:
+    # small-integer on/off series (Walsh functions): the sample correlation is EXACTLY 0.0, all sums being exact
+    n = r.choice([8, 16])
+    m = min(m, 20)
+    w1, w2, w3 = r.sample(range(1, n), 3)
+    h = lambda w: np.array([(-1.0) ** bin(w & j).count('1') for j in range(n)])
+    x_pre = float(r.randrange(10, 500)) + r.randrange(1, 9) * h(w1)
+    y_pre = float(r.randrange(10, 500)) + r.randrange(1, 9) * h(w2) + r.randrange(0, 5) * h(w3)
+    rho_target, sign = 0.0, 1
   violations = []
   desc = {'n': n, 'n_test': m, 'sig_level': sig, 'power_level': power, 'flevel': flevel,
-          'rho_target': sign * rho_target, 'level': level, 'sd': sd}
+          'rho_target': sign * rho_target, 'level': level, 'sd': sd, 'exact_zero_correlation': exact_zero}
 
   def add(clause, mech, detail):
     violations.append({'clause': clause, 'mech': mech, 'detail': '%s; case %r' % (detail, desc)})
@@ -132,8 +142,13 @@ def run_case(spec):
     counters['buffer_edits'] += 1
   else:
     diag.x = x_pre
-  ri = float(diag.required_impact)
+  ri_raw = diag.required_impact
+  if ri_raw is None:
+    add('required-impact', 'required-impact-none', 'required_impact is None although the control series is set (corr=%r)' % (diag.corr,))
+    return {'nontrivial': True, 'fp': util.fp(desc), 'classes': ['impact-none'], 'counters': dict(counters), 'violations': violations, 'sample': None}
+  ri = float(ri_raw)
   corr = float(diag.corr)
+  counters['exact_zero_correlation'] += (corr == 0.0)
   ref = tbrref.Ref(x_pre, y_pre, x_pre[:1], y_pre[:1])
   if not (ref.sigma2 > 0) or not math.isfinite(ri) or abs(corr) >= 1:
     return {'nontrivial': False, 'fp': util.fp(desc), 'classes': ['degenerate'], 'counters': {'degenerate': 1},
